@@ -133,8 +133,18 @@ def race_program(draw, cfg, cache):
         call = ['sb', 'f', [1, 'k'], True]
     t0 = [copy.deepcopy(call)]
     t1 = [copy.deepcopy(call)]
-    placement = draw(st.sampled_from(['same', 'same', 'nested']))
-    if placement == 'nested':
+    placement = draw(st.sampled_from(['same', 'same', 'nested', 'reuse']))
+    alt_roots = None
+    if placement == 'reuse':
+        # an earlier build (root variant 1) caches wrap -> f; in the race one task reuses wrap inside outer (which catches)
+        # while the other requests f directly; a later build (root variant 2) requests outer alone
+        inner = copy.deepcopy(call)
+        inner[-1] = draw(st.booleans())
+        funcs['wrap'] = {'kind': 'sub', 'body': [inner]}
+        funcs['outer'] = {'kind': 'sub', 'body': [['sb', 'wrap', [], True]]}
+        t1 = [['sb', 'outer', [], True]]
+        alt_roots = [[['sb', 'wrap', [], True]], [['sb', 'outer', [], True]]]
+    elif placement == 'nested':
         funcs['wrap'] = {'kind': 'sub', 'body': [copy.deepcopy(call)]}
         t1 = [['sb', 'wrap', [], True]]
     elif placement == 'after' and kind == 'bf':
@@ -142,15 +152,24 @@ def race_program(draw, cfg, cache):
     root = [['par', [t0, t1]]]
     if kind == 'bf' and draw(st.booleans()):
         root.append(['q', 'read_binary', path, 'HASH'])
-    return {'root': root, 'funcs': funcs, 'universe': list(cfg['universe'])}
+    prog = {'root': root, 'funcs': funcs, 'universe': list(cfg['universe'])}
+    if alt_roots:
+        prog['alt_roots'] = alt_roots
+    return prog
 
 
 def race_drive(draw, h, cfg):
     h.nt_keys = []
     step(h, ['write', 'in/a', draw(st.integers(0, 2))])
     vers = {}
+    reuse = 'outer' in h.prog_rel['funcs']
     shape = draw(st.sampled_from(['first', 'first', 'rebuild', 'changed']))
-    if shape != 'first':
+    if reuse:
+        step(h, ['root', 1])
+        step(h, ['build', vers, None, None, {'sched': {'preempt': []}}])
+        step(h, ['root', 0])
+        h.stats['c08_race_reuse_scenarios'] += 1
+    elif shape != 'first':
         step(h, ['build', vers, None, None, {'sched': {'preempt': []}}])
         if shape == 'changed':
             step(h, draw(st.sampled_from([['write', 'in/a', 1], ['touch', 'in/a'], ['rm', 'o/x'], ['rm', 'o/d/x'], ['write', 'o/d/e/x', 0]])))
@@ -187,7 +206,12 @@ def race_drive(draw, h, cfg):
             h.flags.add('c08_nontrivial')
             h.nt_keys.append(['race', spec])
         if not h.dead and h.last.get('committed'):
+            if reuse:
+                # the follow-up build requests only the caller that caught the rejection (no duplicate any more)
+                step(h, ['root', 2])
             step(h, ['build', vers, None, None, {'sched': {'preempt': []}}])
+            if reuse:
+                step(h, ['root', 0])
         if not h.dead:
             step(h, ['clean'])
 
